@@ -125,6 +125,11 @@ REVERTS = {
     "revert-py-transitive-import": ("7fa578d", ["C10"]),
     "revert-huge-integers": ("673ec99", ["C09"]),
     "revert-undecodable-file": ("d521f45", ["C09"]),
+    "revert-eof-comment": ("db9c5c2", ["C08"]),
+    "revert-packing-validator": ("eec4570", ["C10"]),
+    "revert-string-nul-trigraph": ("6101377", ["C13"]),
+    "revert-go-json-tag": ("d148e36", ["C15", "C19"]),
+    "revert-eof-line": ("3628257", ["C20", "C08"]),
 }
 for _n, (_c, _p) in REVERTS.items():
     CATALOGUE[_n] = (_p, [("@revert", _c, "")], f"revert of fix {_c}")
